@@ -129,7 +129,8 @@ func callRead(p interface{}, in *gio.DataInputX) {
 	reflect.ValueOf(p).MethodByName("Read").Call([]reflect.Value{reflect.ValueOf(in)})
 }
 
-func encode(pt *ptype, p interface{}) (b []byte, msg string) {
+// encodeRaw returns the very slice the writer handed out (a caller may hold on to it: gens "hold").
+func encodeRaw(pt *ptype, p interface{}) (b []byte, msg string) {
 	msg = core.Guard(func() {
 		if pt.reg {
 			b = pack.ToBytesPack(p.(pack.Pack))
@@ -139,6 +140,11 @@ func encode(pt *ptype, p interface{}) (b []byte, msg string) {
 		callWrite(p, out)
 		b = out.ToByteArray()
 	})
+	return
+}
+
+func encode(pt *ptype, p interface{}) (b []byte, msg string) {
+	b, msg = encodeRaw(pt, p)
 	b = append([]byte(nil), b...)
 	return
 }
@@ -167,6 +173,15 @@ func decode(pt *ptype, b []byte) (q interface{}, consumed int, msg string) {
 		}
 		q = q2
 	}
+	if !pt.reg && consumed == len(b) {
+		// the same observation point for a type with a Read of its own: the encoding is ALL the reader
+		// is given (a guard that compares a count with what is left of the input sees the real end)
+		q2 := pt.mk()
+		if m2 := core.Guard(func() { callRead(q2, gio.NewDataInputX(append([]byte(nil), b...))) }); m2 != "" {
+			return nil, 0, "Read(exact input): " + m2
+		}
+		q = q2
+	}
 	return q, consumed, ""
 }
 
@@ -190,23 +205,28 @@ func prep(p interface{}) bool {
 }
 
 type instance struct {
-	pt    *ptype
-	seed  int64
-	nonil bool
-	depth int
-	wide  int // k > 0: the k-th wire-boundary instance of its type (fill.go: byte-counted lists at the boundaries of their count byte)
+	pt     *ptype
+	seed   int64
+	nonil  bool
+	depth  int
+	wide   int                 // k > 0: the k-th wire-boundary instance of its type (fill.go: byte-counted lists at the boundaries of their count byte)
+	min    *minPlan            // not nil: every element has its minimal encoding, the plan says how many elements each section holds (gen "minimal")
+	replay func(p interface{}) // not nil: what happened to the object after it was populated (earlier writes, mutations): a rebuilt copy lives through the same
 }
 
 // build constructs the instance again from its seed (the probes change one leaf of a fresh copy).
 func (it *instance) build() interface{} {
 	r := rand.New(rand.NewSource(it.seed))
 	p := it.pt.mk()
-	g := &filler{r: r, nonil: it.nonil, wide: it.wide}
-	if r.Intn(24) == 0 {
+	g := &filler{r: r, nonil: it.nonil, wide: it.wide, min: it.min}
+	if r.Intn(24) == 0 && it.min == nil {
 		g.big = 1
 	}
 	g.populate(p, it.depth)
 	setHeaderForm(r, p)
+	if it.replay != nil {
+		it.replay(p)
+	}
 	return p
 }
 
@@ -239,6 +259,8 @@ type message struct {
 	p       interface{}
 	w       map[string]interface{}
 	wd      map[string]interface{}
+	wdel    []string
+	twice   bool // the live object was written a second time (purity test of the writer)
 	sib     map[string]string
 	carried []string
 	bytes   []byte
@@ -251,7 +273,8 @@ var stats = struct {
 	leaves          int
 	tops            map[string]map[string]bool
 	sharedAbandoned int
-}{map[string]int{}, 0, 0, map[string]map[string]bool{}, 0}
+	twinless        int
+}{map[string]int{}, 0, 0, map[string]map[string]bool{}, 0, 0}
 
 // carriedBy derives the carried leaves from a writer: leaf k is carried iff
 // writing a fresh copy in which only leaf k was changed gives other bytes
@@ -351,67 +374,92 @@ func topOf(path string) string {
 	return path
 }
 
+// observe records the leaves of the live object p (an instance of `it` in its
+// current state), writes it and derives the carried set for THIS state of the
+// object (the probes work on copies rebuilt by it.build, which replays what
+// happened to the object).  msg != "" : the writer failed.
+func observe(it *instance, p interface{}, write func(p interface{}) ([]byte, string)) (*message, string, error) {
+	pt := it.pt
+	if write == nil {
+		write = func(p interface{}) ([]byte, string) { return encode(pt, p) }
+	}
+	leaves := walkObject(p)
+	w := map[string]interface{}{}
+	for _, l := range leaves {
+		w[l.path] = l.get()
+	}
+	b, msg := write(p)
+	if msg != "" {
+		return nil, msg, nil
+	}
+	// what Write itself did to the object: leaves that hold another value or are new (wd), leaves that are gone (wdel)
+	wd := map[string]interface{}{}
+	wdel := []string{}
+	after := map[string]bool{}
+	for _, l := range walkObject(p) {
+		after[l.path] = true
+		cur := l.get()
+		if old, ok := w[l.path]; !ok || !jsonEq(old, cur) {
+			wd[l.path] = cur
+		}
+	}
+	for k := range w {
+		if !after[k] {
+			wdel = append(wdel, k)
+		}
+	}
+	sort.Strings(wdel)
+	sib := map[string]string{}
+	for _, l := range leaves {
+		if strings.HasSuffix(l.path, "ErrorLevel") {
+			if lf, ok := w[l.path].(obj); ok && lf["o"] == "TxRecord.ErrorLevel" {
+				sib[l.path] = strings.TrimSuffix(l.path, "Level")
+			}
+		}
+	}
+	pure := len(wd) == 0 && len(wdel) == 0
+	twice := pure
+	if pure {
+		b1, msg1 := write(p)
+		pure = msg1 == "" && bytes.Equal(b1, b)
+	}
+	carried, err := carriedBy(it, len(leaves), b, w, pure, write)
+	if err != nil {
+		return nil, "", err
+	}
+	stats.leaves += len(leaves)
+	if stats.tops[pt.name] == nil {
+		stats.tops[pt.name] = map[string]bool{}
+	}
+	for _, c := range carried {
+		stats.tops[pt.name][topOf(c)] = true
+	}
+	return &message{it: it, p: p, w: w, wd: wd, wdel: wdel, sib: sib, carried: carried, bytes: b, perm: hasUnorderedTables(p), twice: twice}, "", nil
+}
+
 // makeMessage populates an instance (retrying with every optional section
 // present when the writer requires one), records its leaves, writes it and
 // derives the carried set.  msg != "" : the writer failed.
 func makeMessage(pt *ptype, seed int64, depth int, wide int, write func(p interface{}) ([]byte, string)) (*message, string, error) {
-	it := &instance{pt: pt, seed: seed, depth: depth, wide: wide}
-	if write == nil {
-		write = func(p interface{}) ([]byte, string) { return encode(pt, p) }
-	}
-	var m *message
-	for attempt := 0; attempt < 2; attempt++ {
+	return makeMessageOf(&instance{pt: pt, seed: seed, depth: depth, wide: wide}, write)
+}
+
+func makeMessageOf(it *instance, write func(p interface{}) ([]byte, string)) (*message, string, error) {
+	for attempt := 0; ; attempt++ {
 		it.nonil = attempt == 1
-		p := it.build()
-		leaves := walkObject(p)
-		w := map[string]interface{}{}
-		for _, l := range leaves {
-			w[l.path] = l.get()
+		m, msg, err := observe(it, it.build(), write)
+		if err != nil {
+			return nil, "", err
 		}
-		b, msg := write(p)
 		if msg != "" {
 			if attempt == 0 {
-				stats.nilFallback[pt.name]++
+				stats.nilFallback[it.pt.name]++
 				continue
 			}
 			return nil, msg, nil
 		}
-		wd := map[string]interface{}{}
-		for _, l := range walkObject(p) {
-			if old, ok := w[l.path]; ok {
-				if cur := l.get(); !jsonEq(old, cur) {
-					wd[l.path] = cur
-				}
-			}
-		}
-		sib := map[string]string{}
-		for _, l := range leaves {
-			if strings.HasSuffix(l.path, "ErrorLevel") {
-				if lf, ok := w[l.path].(obj); ok && lf["o"] == "TxRecord.ErrorLevel" {
-					sib[l.path] = strings.TrimSuffix(l.path, "Level")
-				}
-			}
-		}
-		pure := len(wd) == 0
-		if pure {
-			b1, msg1 := write(p)
-			pure = msg1 == "" && bytes.Equal(b1, b)
-		}
-		carried, err := carriedBy(it, len(leaves), b, w, pure, write)
-		if err != nil {
-			return nil, "", err
-		}
-		stats.leaves += len(leaves)
-		if stats.tops[pt.name] == nil {
-			stats.tops[pt.name] = map[string]bool{}
-		}
-		for _, c := range carried {
-			stats.tops[pt.name][topOf(c)] = true
-		}
-		m = &message{it: it, p: p, w: w, wd: wd, sib: sib, carried: carried, bytes: b, perm: hasUnorderedTables(p)}
-		break
+		return m, "", nil
 	}
-	return m, "", nil
 }
 
 func (m *message) event(ev string) core.Ev {
@@ -419,8 +467,12 @@ func (m *message) event(ev string) core.Ev {
 	if m.it.pt.reg {
 		mode = "reg"
 	}
-	return core.Ev{"ev": ev, "type": m.it.pt.name, "code": int(m.it.pt.code), "mode": mode, "hdr": m.it.pt.hdr,
+	e := core.Ev{"ev": ev, "type": m.it.pt.name, "code": int(m.it.pt.code), "mode": mode, "hdr": m.it.pt.hdr,
 		"w": m.w, "wd": m.wd, "sib": m.sib, "carried": m.carried, "bytes": core.Cp(m.bytes), "perm": m.perm}
+	if len(m.wdel) > 0 {
+		e["wdel"] = m.wdel
+	}
+	return e
 }
 
 // an item of a container: its bytes are not needed again
@@ -441,40 +493,51 @@ func roundTrip(c *core.Ctx, t *core.Trace, pt *ptype, seed int64, wide int) erro
 		return nil
 	}
 	t.Emit(m.event("Enc"))
-	q, consumed, msg := decode(pt, m.bytes)
-	if msg != "" {
-		t.Emit(core.Ev{"ev": "Panic", "in": "Read", "type": pt.name, "msg": msg})
+	if _, ok := decEvents(t.Emit, pt, m.bytes, m.bytes); !ok {
 		return nil
+	}
+	c.Count(fmt.Sprintf("%s:%d:%d", pt.name, len(m.bytes), len(m.carried)), len(m.carried) > 0)
+	return nil
+}
+
+// decEvents: the Dec and ReEnc events for the encoding `in` (what the reader is
+// given now; orig = what the writer returned when it was made).  Returns the
+// decoded object.
+func decEvents(emit func(core.Ev), pt *ptype, in, orig []byte) (interface{}, bool) {
+	q, consumed, msg := decode(pt, in)
+	if msg != "" {
+		emit(core.Ev{"ev": "Panic", "in": "Read", "type": pt.name, "msg": msg})
+		return nil, false
 	}
 	// written again by a second, untouched decoded copy (a writer may complete the pack it
 	// writes, looking at a lazily decoded section changes its representation)
-	qb, _, msg := decode(pt, m.bytes)
+	qb, _, msg := decode(pt, in)
 	if msg != "" {
-		t.Emit(core.Ev{"ev": "Panic", "in": "Read(2)", "type": pt.name, "msg": msg})
-		return nil
+		emit(core.Ev{"ev": "Panic", "in": "Read(2)", "type": pt.name, "msg": msg})
+		return nil, false
 	}
 	re, msg := encode(pt, qb)
 	if msg != "" {
-		t.Emit(core.Ev{"ev": "Panic", "in": "Write(decoded)", "type": pt.name, "msg": msg})
-		return nil
+		emit(core.Ev{"ev": "Panic", "in": "Write(decoded)", "type": pt.name, "msg": msg})
+		return nil, false
 	}
 	var rsnap map[string]interface{}
 	hasPrep := false
 	if msg := core.Guard(func() { hasPrep = prep(q); rsnap = snapshotOf(q) }); msg != "" {
-		t.Emit(core.Ev{"ev": "Panic", "in": "project(decoded)", "type": pt.name, "msg": msg})
-		return nil
+		emit(core.Ev{"ev": "Panic", "in": "project(decoded)", "type": pt.name, "msg": msg})
+		return nil, false
 	}
-	t.Emit(core.Ev{"ev": "Dec", "rtype": decodedName(pt, q), "r": rsnap, "consumed": consumed})
+	emit(core.Ev{"ev": "Dec", "rtype": decodedName(pt, q), "r": rsnap, "consumed": consumed})
 	ev := core.Ev{"ev": "ReEnc", "re": core.Cp(re)}
 	if hasPrep {
 		rep, msg := encode(pt, q)
 		if msg != "" {
-			t.Emit(core.Ev{"ev": "Panic", "in": "Write(decoded, unpacked)", "type": pt.name, "msg": msg})
-			return nil
+			emit(core.Ev{"ev": "Panic", "in": "Write(decoded, unpacked)", "type": pt.name, "msg": msg})
+			return nil, false
 		}
 		ev["rep"] = core.Cp(rep)
 	}
-	if !bytes.Equal(re, m.bytes) {
+	if !bytes.Equal(re, orig) {
 		// second generation: is the reader's normal form stable?
 		if q2, _, msg := decode(pt, re); msg == "" {
 			if re2, msg := encode(pt, q2); msg == "" {
@@ -482,9 +545,8 @@ func roundTrip(c *core.Ctx, t *core.Trace, pt *ptype, seed int64, wide int) erro
 			}
 		}
 	}
-	t.Emit(ev)
-	c.Count(fmt.Sprintf("%s:%d:%d", pt.name, len(m.bytes), len(m.carried)), len(m.carried) > 0)
-	return nil
+	emit(ev)
+	return q, true
 }
 
 // the concrete type of a decoded object, with the variant of its type entry
@@ -627,7 +689,7 @@ func compactOut(items []interface{}) (outs []interface{}, outi []int) {
 }
 
 // emitUnpack records what a decoded container returned (long lists in the compact form).
-func emitUnpack(t *core.Trace, got []interface{}, where core.Ev) bool {
+func emitUnpack(emit func(core.Ev), got []interface{}, where core.Ev) bool {
 	ev := core.Ev{"ev": "Unpack"}
 	msg := core.Guard(func() {
 		if len(got) >= 64 {
@@ -641,10 +703,10 @@ func emitUnpack(t *core.Trace, got []interface{}, where core.Ev) bool {
 		for k, v := range where {
 			p[k] = v
 		}
-		t.Emit(p)
+		emit(p)
 		return false
 	}
-	t.Emit(ev)
+	emit(ev)
 	return true
 }
 
@@ -690,8 +752,74 @@ var innerTypes = func() []*ptype {
 	return ts
 }()
 
+// a container that was built and is still held by its builder
+type built struct {
+	kind   string
+	name   string // record lists: the pack type
+	box    interface{}
+	concat []byte // zip kinds: the inner packs one after the other
+	n      int
+	ev     core.Ev
+	rk     *recKind
+	how    string
+	unset  bool
+	got    []interface{} // what unpacking returned
+}
+
+// how a history wants its containers built
+type buildOpts struct {
+	nFixed   int  // >= 0: that many elements, drawn from three registered ones (gen "counts")
+	base     int  // items registered earlier in the history (several containers share the store)
+	compress bool // zip kinds: ask for compression (gen "hold")
+	minimal  bool // the items are minimal instances (gen "minimal")
+}
+
+// the registered item of a container
+func itemMessage(pt *ptype, seed int64, o buildOpts, r *rand.Rand, write func(p interface{}) ([]byte, string)) (*message, string, error) {
+	if !o.minimal {
+		return makeMessage(pt, seed, 0, 0, write)
+	}
+	// a minimal instance: one of its sections (in turn by the seed) holds one or two elements, every other none
+	d := sectionsOf(pt)
+	plan := &minPlan{counts: map[string]int{}}
+	if len(d.seen) > 0 && r.Intn(4) > 0 {
+		plan = d.planFor(d.seen[r.Intn(len(d.seen))], 1+r.Intn(2))
+	}
+	return makeMessageOf(&instance{pt: pt, seed: seed, min: plan}, write)
+}
+
 // nFixed >= 0: that many inner packs, drawn from three registered ones (gen "counts")
 func packHistory(c *core.Ctx, t *core.Trace, kind string, cas int, r *rand.Rand, nFixed int) error {
+	b, err := packBuild(t.Emit, kind, r, buildOpts{nFixed: nFixed})
+	if err != nil || b == nil {
+		return err
+	}
+	if !boxFinish(t.Emit, b) {
+		return nil
+	}
+	c.Count(fmt.Sprintf("%s:%d:%v:%d", kind, b.n, b.ev["status"], len(b.concat)), b.n > 0)
+	return nil
+}
+
+// zipView: what the records blob of a zip container holds NOW
+func zipView(box interface{}, concat []byte) (status int, gz bool, same bool) {
+	var recs []byte
+	switch x := box.(type) {
+	case *pack.ZipPack:
+		status, recs = int(x.Status), x.Records
+	case *pack.LogSinkZipPack:
+		status, recs = int(x.Status), x.Records
+	}
+	plain, gz := gunzip(recs)
+	if !gz {
+		plain = recs
+	}
+	return status, gz, bytes.Equal(plain, concat)
+}
+
+// packBuild registers the inner packs and builds the container through the public API (Item*, Build events).
+func packBuild(emit func(core.Ev), kind string, r *rand.Rand, o buildOpts) (*built, error) {
+	nFixed := o.nFixed
 	n := []int{0, 1, 2, 3, 3, 5}[r.Intn(6)]
 	distinct := n
 	if nFixed >= 0 {
@@ -710,30 +838,30 @@ func packHistory(c *core.Ctx, t *core.Trace, kind string, cas int, r *rand.Rand,
 			}
 			var msg string
 			var err error
-			m, msg, err = makeMessage(pt, r.Int63(), 0, 0, nil)
+			m, msg, err = itemMessage(pt, r.Int63(), o, r, nil)
 			if err != nil {
-				return err
+				return nil, err
 			}
 			if msg != "" {
-				t.Emit(core.Ev{"ev": "Panic", "in": "Write(item)", "type": pt.name, "msg": msg})
-				return nil
+				emit(core.Ev{"ev": "Panic", "in": "Write(item)", "type": pt.name, "msg": msg})
+				return nil, nil
 			}
 			if nFixed < 0 || len(m.w) <= 40 || try >= 50 {
 				break // an item repeated thousands of times is a small one
 			}
 		}
-		t.Emit(m.itemEvent())
+		emit(m.itemEvent())
 		msgs = append(msgs, m)
 		if nFixed < 0 {
 			// the item itself is handed over unwritten: a fresh copy from the same seed
 			items = append(items, m.it.build().(pack.Pack))
 			concat = append(concat, m.bytes...)
-			idx = append(idx, i+1)
+			idx = append(idx, o.base+i+1)
 		}
 	}
 	if nFixed >= 0 {
-		idx = pattern(r, n, distinct)
-		for _, k := range idx {
+		for _, k := range pattern(r, n, distinct) {
+			idx = append(idx, o.base+k)
 			items = append(items, msgs[k-1].it.build().(pack.Pack))
 			concat = append(concat, msgs[k-1].bytes...)
 		}
@@ -754,8 +882,11 @@ func packHistory(c *core.Ctx, t *core.Trace, kind string, cas int, r *rand.Rand,
 		setHeaderForm(r, zp)
 		msg = core.Guard(func() {
 			zp.SetRecords(items)
-			if len(zp.Records) > 0 && r.Intn(2) == 0 { // what the log-sink sender does before sending a non-empty buffer (ZipSendProxyThread.doZip)
+			if len(zp.Records) > 0 && (r.Intn(2) == 0 || o.compress) { // what the log-sink sender does before sending a non-empty buffer (ZipSendProxyThread.doZip)
 				min := []int{0, len(zp.Records), len(zp.Records) + 1}[r.Intn(3)]
+				if o.compress {
+					min = 0
+				}
 				ev["minsize"] = min
 				if zp.Status == 0 && len(zp.Records) >= min {
 					zp.Status = pack.ZIPPED
@@ -767,39 +898,41 @@ func packHistory(c *core.Ctx, t *core.Trace, kind string, cas int, r *rand.Rand,
 				}
 			}
 		})
-		ev["status"] = int(zp.Status)
-		plain, gz := gunzip(zp.Records)
-		if !gz {
-			plain = zp.Records
-		}
-		ev["gz"], ev["same"] = gz, bytes.Equal(plain, concat)
 		box = zp
+		ev["status"], ev["gz"], ev["same"] = zipView(box, concat)
 	case "lszip":
 		lp := pack.NewLogSinkZipPack()
 		(&filler{r: r}).fillStruct(reflect.ValueOf(&lp.AbstractPack).Elem())
 		setHeaderForm(r, lp)
 		lp.RecordCount = n
 		min := []int{0, len(concat), len(concat) + 1, 1 << 20, 1}[r.Intn(5)]
+		if o.compress {
+			min = []int{0, 1}[r.Intn(2)]
+		}
 		ev["minsize"] = min
 		msg = core.Guard(func() { lp.SetRecords(append([]byte{}, concat...), min) })
-		ev["status"] = int(lp.Status)
-		plain, gz := gunzip(lp.Records)
-		if !gz {
-			plain = lp.Records
-		}
-		ev["gz"], ev["same"] = gz, bytes.Equal(plain, concat)
 		box = lp
+		ev["status"], ev["gz"], ev["same"] = zipView(box, concat)
 	}
 	if msg != "" {
-		t.Emit(core.Ev{"ev": "Panic", "in": "SetRecords", "kind": kind, "msg": msg})
-		return nil
+		emit(core.Ev{"ev": "Panic", "in": "SetRecords", "kind": kind, "msg": msg})
+		return nil, nil
 	}
 	ev["id"] = identityOf(box)
-	t.Emit(ev)
-	q, msg := wire(typeOfPack(box), box)
+	emit(ev)
+	return &built{kind: kind, box: box, concat: concat, n: n, ev: ev}, nil
+}
+
+// boxFinish sends a built container over the wire and unpacks the decoded one (Unpack event).
+func boxFinish(emit func(core.Ev), b *built) bool {
+	if b.rk != nil {
+		return recsFinish(emit, b)
+	}
+	kind := b.kind
+	q, msg := wire(typeOfPack(b.box), b.box)
 	if msg != "" {
-		t.Emit(core.Ev{"ev": "Panic", "in": "wire", "kind": kind, "msg": msg})
-		return nil
+		emit(core.Ev{"ev": "Panic", "in": "wire", "kind": kind, "msg": msg})
+		return false
 	}
 	var got []interface{}
 	msg = core.Guard(func() {
@@ -820,14 +953,11 @@ func packHistory(c *core.Ctx, t *core.Trace, kind string, cas int, r *rand.Rand,
 		}
 	})
 	if msg != "" {
-		t.Emit(core.Ev{"ev": "Panic", "in": "GetRecords", "kind": kind, "msg": msg})
-		return nil
+		emit(core.Ev{"ev": "Panic", "in": "GetRecords", "kind": kind, "msg": msg})
+		return false
 	}
-	if !emitUnpack(t, got, core.Ev{"kind": kind}) {
-		return nil
-	}
-	c.Count(fmt.Sprintf("%s:%d:%v:%d", kind, n, ev["status"], len(concat)), n > 0)
-	return nil
+	b.got = got
+	return emitUnpack(emit, got, core.Ev{"kind": kind})
 }
 
 // ------------------------------------------------------------ record lists
@@ -981,6 +1111,20 @@ var recKinds = []*recKind{
 
 // nFixed >= 0: that many records, drawn from three registered ones (gen "counts")
 func recsHistory(c *core.Ctx, t *core.Trace, rk *recKind, cas int, r *rand.Rand, nFixed int) error {
+	b, err := recsBuild(t.Emit, rk, cas, r, buildOpts{nFixed: nFixed})
+	if err != nil || b == nil {
+		return err
+	}
+	if !boxFinish(t.Emit, b) {
+		return nil
+	}
+	c.Count(fmt.Sprintf("recs:%s:%s:%d:%v", rk.name, b.how, b.n, b.unset), b.n > 0)
+	return nil
+}
+
+// recsBuild registers the records and builds the record-list pack through a public setter (Item*, Build events).
+func recsBuild(emit func(core.Ev), rk *recKind, cas int, r *rand.Rand, o buildOpts) (*built, error) {
+	nFixed := o.nFixed
 	how := rk.setters[r.Intn(len(rk.setters))]
 	n := []int{0, 0, 1, 2, 3, 4, 7}[r.Intn(7)]
 	unset := n == 0 && r.Intn(2) == 0 // a pack whose records were never set
@@ -1012,53 +1156,56 @@ func recsHistory(c *core.Ctx, t *core.Trace, rk *recKind, cas int, r *rand.Rand,
 	idx := []int{}
 	var msgs []*message
 	for i := 0; i < distinct; i++ {
-		m, msg, err := makeMessage(recType, r.Int63(), 0, 0, writeRec)
+		m, msg, err := itemMessage(recType, r.Int63(), o, r, writeRec)
 		if err != nil {
-			return err
+			return nil, err
 		}
 		if msg != "" {
-			t.Emit(core.Ev{"ev": "Panic", "in": "SetRecords(item)", "type": rk.name, "how": how, "msg": msg})
-			return nil
+			emit(core.Ev{"ev": "Panic", "in": "SetRecords(item)", "type": rk.name, "how": how, "msg": msg})
+			return nil, nil
 		}
-		t.Emit(m.itemEvent())
+		emit(m.itemEvent())
 		msgs = append(msgs, m)
 		if nFixed < 0 {
 			items = append(items, m.it.build())
-			idx = append(idx, i+1)
+			idx = append(idx, o.base+i+1)
 		}
 	}
 	if nFixed >= 0 {
-		idx = pattern(r, n, distinct)
-		for _, k := range idx {
+		for _, k := range pattern(r, n, distinct) {
+			idx = append(idx, o.base+k)
 			items = append(items, msgs[k-1].it.build())
 		}
 	}
 	if !unset {
 		if msg := core.Guard(func() { rk.set(box, how, items) }); msg != "" {
-			t.Emit(core.Ev{"ev": "Panic", "in": "SetRecords", "type": rk.name, "how": how, "msg": msg})
-			return nil
+			emit(core.Ev{"ev": "Panic", "in": "SetRecords", "type": rk.name, "how": how, "msg": msg})
+			return nil, nil
 		}
 	}
 	zero := core.W8(0)
-	t.Emit(core.Ev{"ev": "Build", "kind": "records", "pack": rk.name, "how": how, "unset": unset, "items": idx, "status0": 0,
+	ev := core.Ev{"ev": "Build", "kind": "records", "pack": rk.name, "how": how, "unset": unset, "items": idx, "status0": 0,
 		"minsize": -1, "plainlen": 0, "status": 0, "gz": false, "same": true,
-		"id": map[string]interface{}{"Pcode": zero, "Oid": zero, "Okind": zero, "Onode": zero}})
+		"id": map[string]interface{}{"Pcode": zero, "Oid": zero, "Okind": zero, "Onode": zero}}
+	emit(ev)
+	return &built{kind: "records", name: rk.name, box: box, n: n, ev: ev, rk: rk, how: how, unset: unset}, nil
+}
+
+func recsFinish(emit func(core.Ev), b *built) bool {
+	rk := b.rk
 	pt := typeByName(rk.name)
-	q, msg := wire(pt, box)
+	q, msg := wire(pt, b.box)
 	if msg != "" {
-		t.Emit(core.Ev{"ev": "Panic", "in": "wire", "type": rk.name, "msg": msg})
-		return nil
+		emit(core.Ev{"ev": "Panic", "in": "wire", "type": rk.name, "msg": msg})
+		return false
 	}
 	var got []interface{}
 	if msg := core.Guard(func() { got = rk.get(q) }); msg != "" {
-		t.Emit(core.Ev{"ev": "Panic", "in": "GetRecords", "type": rk.name, "how": how, "unset": unset, "msg": msg})
-		return nil
+		emit(core.Ev{"ev": "Panic", "in": "GetRecords", "type": rk.name, "how": b.how, "unset": b.unset, "msg": msg})
+		return false
 	}
-	if !emitUnpack(t, got, core.Ev{"type": rk.name}) {
-		return nil
-	}
-	c.Count(fmt.Sprintf("recs:%s:%s:%d:%v", rk.name, how, n, unset), n > 0)
-	return nil
+	b.got = got
+	return emitUnpack(emit, got, core.Ev{"type": rk.name})
 }
 
 func runContainers(c *core.Ctx, t *core.Trace) error {
@@ -1153,7 +1300,11 @@ func Run(c *core.Ctx) error {
 	c.Rule = "codec: one history per populated pack: leaves recorded by reflection, written by the real writer (ToBytesPack, or the type's own Write for packs the factory does not know), carried set derived by changing one leaf at a time, read by the real reader over bytes+trailer, written again (non-trivial: at least one carried leaf; distinct by type, encoded length and carried count); " +
 		"registry: CreatePack for every 16-bit type code; containers: composite / zip / log-sink zip built from registered inner packs and record-list packs built from registered records through the public setters, sent over the wire, unpacked (non-trivial: at least one item); " +
 		"counts: the same containers with an element count at a boundary of the 16-bit count cell (127..257, 32766..65535), built from three registered items repeated in a random pattern"
-	known := map[string]bool{"": true, "codec": true, "registry": true, "composite": true, "zip": true, "lszip": true, "recs": true, "counts": true}
+	c.Rule += "; life: one object of every type written, changed through its public surface (assignable leaves put back to zero / changed, elements added and removed, public mutators), written again, decoded: the carried set of the later write is derived for that state of the object (probes replay its life); " +
+		"hold: two or three packs / containers all written (built) before the first is read back (sent and unpacked), the writer's own slice / the records blob / the decoded pack / the unpacked items kept and looked at again after the later calls; " +
+		"minimal: per count-prefixed section of every type instances with 1, 2, 255 minimal elements in that section and nothing else, read from exactly the encoding; containers over minimal items"
+	known := map[string]bool{"": true, "codec": true, "registry": true, "composite": true, "zip": true, "lszip": true, "recs": true, "counts": true,
+		"life": true, "hold": true, "minimal": true}
 	if !known[c.OnlyGen] && !strings.HasPrefix(c.OnlyGen, "kf_") {
 		return fmt.Errorf("unknown gen %q", c.OnlyGen)
 	}
@@ -1174,6 +1325,9 @@ func Run(c *core.Ctx) error {
 		t.Emit(core.Ev{"ev": "End", "n": 1})
 		return nil
 	}
+	if done, err := runKfLife(c); done || err != nil {
+		return err
+	}
 	runRegistry(c)
 	if err := runCodec(c); err != nil {
 		return err
@@ -1183,6 +1337,18 @@ func Run(c *core.Ctx) error {
 		return err
 	}
 	if err := runCounts(c); err != nil {
+		return err
+	}
+	if c.WantGen("life") || c.WantGen("hold") {
+		lt := c.Trace("c03_life", "Trace_PackCodec")
+		if err := runLife(c, lt); err != nil {
+			return err
+		}
+		if err := runHold(c, lt); err != nil {
+			return err
+		}
+	}
+	if err := runMinimal(c); err != nil {
 		return err
 	}
 	if c.OnlyGen == "" {
@@ -1210,5 +1376,6 @@ func Run(c *core.Ctx) error {
 	c.SetExtra("sensitivity_probes", stats.probes)
 	c.SetExtra("shared_copy_probing_abandoned_information_only", stats.sharedAbandoned)
 	c.SetExtra("leaves_recorded", stats.leaves)
+	c.SetExtra("life_histories_without_twin_information_only", stats.twinless)
 	return nil
 }
